@@ -244,7 +244,11 @@ static void sp_setup(int outer_flags) {
 static int sp_ctx;
 static JanetFopts sp_opts(void) {
     JanetFopts o; o.compiler = &sp_c; o.flags = 0; o.hint.flags = 0; o.hint.index = 0; o.hint.envindex = -1; o.hint.constant = sp_nil();
+#ifdef SP_CTX
+    sp_ctx = SP_CTX;
+#else
     sp_ctx = nd_int(); __CPROVER_assume(sp_ctx >= SP_USED && sp_ctx <= SP_TAIL);
+#endif
     if (sp_ctx == SP_DROP) o.flags |= JANET_FOPTS_DROP;
     if (sp_ctx == SP_TAIL) o.flags |= JANET_FOPTS_TAIL;
     if (sp_ctx == SP_USED && nd_int()) {
@@ -299,6 +303,9 @@ void h_if(void) {
     if (tag == JANET_FUN_EQ) mode = 1; else if (tag == JANET_FUN_NEQ) mode = 2; else condid = SP_NF - 1;       /* (< nil x) is an ordinary condition form */
 #endif
     int elseid = (argn == 3 && argv[2].type != JANET_NIL) ? 3 : 0;
+#ifdef SP_CONDCONST
+    __CPROVER_assume(sp_isconst[1] == SP_CONDCONST);
+#endif
     JanetFopts opts = sp_opts();
     JanetSlot ret = janetc_if(opts, argn, argv);
 
